@@ -503,13 +503,16 @@ def model_apply(S_: Side, op):
     m = S_.target(op)
     if m.btype == 'TaggedValueCls':
       raise Skip()
-    for name, v in op['kwargs']:
-      if 'ref' in C.short(v, 10 ** 9) and any(x is m for x in enum_nodes(S_.value(v))):
+    # (all values exist before the call, as for any keyword call: a {'ref': ..}
+    # is resolved against the heap as it is BEFORE the first assignment)
+    vals = [0 if name == 'zz_unknown' else S_.value(v) for name, v in op['kwargs']]
+    for (name, v), val in zip(op['kwargs'], vals):
+      if 'ref' in C.short(v, 10 ** 9) and any(x is m for x in enum_nodes(val)):
         raise Skip()     # (would create a reference cycle)
-    for name, v in op['kwargs']:
+    for (name, v), val in zip(op['kwargs'], vals):
       if not m.can_setattr(name):
         return 'raises'
-      m.setattr(name, S_.value(v))
+      m.setattr(name, val)
     return None
   if k == 'update_callable':
     m = S_.target(op)
